@@ -150,11 +150,17 @@ def run_case(case, reports=False, keep_objects=False):
             def scenario(self, s):
                 self.cur = elid(s)
                 self._e("scenario", el=self.cur)
-            def step(self, s): self._e("step", el=self.cur, pos=_pos_from_name(s.name, self.cur))
+            def step(self, s): self._e("step", el=self.cur, pos=_pos_of_step(s, self.cur))
             def match(self, m): self._e("match", el=self.cur, undefined=(m.func is None))
-            def result(self, s): self._e("result", el=self.cur, pos=_pos_from_name(s.name, self.cur), status=s.status.name)
+            def result(self, s): self._e("result", el=self.cur, pos=_pos_of_step(s, self.cur), status=s.status.name)
             def eof(self): self._e("eof")
             def close(self): self._e("close")
+
+        def _pos_of_step(step, sid):
+            t = getattr(step, "table", None)
+            if t is not None and list(t.headings) == ["k"] and len(t.rows) == 1:
+                return pos_of(sid, "own", int(t.rows[0]["k"]))        # a twin step: identified by its table
+            return _pos_from_name(step.name, sid)
 
         def _pos_from_name(name, sid):
             m = re.search(r"(fbg|rbg|own) (\d+)$", name)
@@ -220,6 +226,8 @@ def run_case(case, reports=False, keep_objects=False):
 
         def realise(ctx, org, k, via="step"):
             # via: the step type this function was registered for ("step" = the generic decorator)
+            if getattr(ctx, "table", None) is not None and list(ctx.table.headings) == ["k"]:
+                k = int(ctx.table[0]["k"])          # a twin step (prog["dupsteps"]): its number is in its table
             sc = ctx.scenario
             sid = elid(sc)
             pos = pos_of(sid, org, k)
@@ -403,7 +411,7 @@ def run_case(case, reports=False, keep_objects=False):
                     el = elid(own) if own is not None else 0
                 elif nm.endswith("_step"):
                     el = elid(ctx.scenario)
-                    pos = _pos_from_name(a[0].name, el)
+                    pos = _pos_of_step(a[0], el)
                     if pos:         # (hooks of nested sub-steps carry position 0 and print nothing)
                         print("H%s%d_%d" % (nm[0], el, pos))
                 elif a:
